@@ -1,6 +1,6 @@
 ------------------------------ MODULE PDialect ------------------------------
 (* Layer P - shipped dialects are well-formed and mutually consistent (C17).  *)
-EXTENDS Integers, Sequences, SequencesExt, FiniteSets, MavMessage
+EXTENDS Integers, Sequences, SequencesExt, FiniteSets, MavMessage, XmlDef
 
 CONSTANT Defs
 
@@ -61,4 +61,36 @@ Check_DINIT(r) ==
   Failed_(<< <<"no_panic", ~r.panic>>,
              <<"malformed_dialect_rejected_at_initialization", ~WellFormedDialect(r.defs) => ~r.init_ok>>,
              <<"well_formed_dialect_accepted", WellFormedDialect(r.defs) => r.init_ok>> >>)
+
+-----------------------------------------------------------------------------
+\* C18 - GEN [doc, gen_err, deterministic, compiled, init_ok, version, msgs, consts]
+\*   msgs <<[def (reflected raw def), crc, size_v1, size_v2, probes <<[vals, v2, out]>>]>> in dialect order
+\*   consts <<[name, value]>> every enum constant of the generated package
+Check_GEN(r) ==
+  LET doc == r.doc
+      want == Messages(doc)
+      nm == IF Len(r.msgs) < Len(want) THEN Len(r.msgs) ELSE Len(want)
+      perMsg(k) ==
+        LET got == FromGo(r.msgs[k].def)
+            m == want[k]
+        IN << <<"message_id", got.id = m.id>>,
+              <<"message_name", got.name = m.name>>,
+              <<"fields_mean_the_xml_fields", got.fields = m.fields>>,
+              <<"crc_extra", r.msgs[k].crc = CrcExtra(m)>>,
+              <<"size_base", r.msgs[k].size_v1 = SizeBase(m)>>,
+              <<"size_ext", r.msgs[k].size_v2 = SizeExt(m)>>,
+              <<"encodes_like_the_definition",
+                   \A i \in 1..Len(r.msgs[k].probes) :
+                      r.msgs[k].probes[i].out = Encode(m, r.msgs[k].probes[i].vals, r.msgs[k].probes[i].v2)>> >>
+  IN IF ~Expressible(doc)
+     THEN Failed_(<< <<"inexpressible_definition_reported", r.gen_err>> >>)
+     ELSE Failed_(<< <<"generator_accepts_valid_xml", ~r.gen_err>>,
+                     <<"generating_twice_gives_identical_files", r.deterministic>>,
+                     <<"generated_package_compiles", r.compiled>>,
+                     <<"initializes_as_dialect", r.init_ok>>,
+                     <<"version_from_xml", r.compiled => r.version = Version(doc)>>,
+                     <<"all_messages_in_order", r.compiled => Len(r.msgs) = Len(want)>>,
+                     <<"enum_constants_equal_xml_values",
+                          r.compiled => {<<r.consts[i].name, r.consts[i].value>> : i \in 1..Len(r.consts)} = Constants(doc)>> >>
+                  \o FlattenSeq([k \in 1..(IF r.compiled THEN nm ELSE 0) |-> perMsg(k)]))
 =============================================================================
